@@ -20,6 +20,7 @@ import hashlib
 import json
 import multiprocessing
 import os
+import select
 import shutil
 import signal
 import subprocess
@@ -303,6 +304,44 @@ def _child(wd, case, wfd):
         os._exit(0)
 
 
+def _fork_call(wd, case, timeout):
+    """call the real code (main or anonymize_files) in a forked child; how did it complete"""
+    rfd, wfd = os.pipe()
+    pid = os.fork()
+    if pid == 0:
+        os.close(rfd)
+        _child(wd, case, wfd)
+    os.close(wfd)
+    data = b""
+    t_end = time.time() + timeout
+    timed_out = False
+    os.set_blocking(rfd, False)
+    while True:
+        left = t_end - time.time()
+        if left <= 0:
+            timed_out = True
+            break
+        rl, _, _ = select.select([rfd], [], [], min(left, 5))
+        if rl:
+            chunk = os.read(rfd, 65536)
+            if not chunk:
+                break
+            data += chunk
+    os.close(rfd)
+    if timed_out:
+        try:
+            os.kill(pid, signal.SIGKILL)
+        except OSError:
+            pass
+    os.waitpid(pid, 0)
+    if timed_out:
+        return {"outcome": "timeout", "etype": "timeout", "msg": ""}
+    try:
+        return json.loads(data.decode())
+    except ValueError:
+        return {"outcome": "crash", "etype": "no-result", "msg": ""}
+
+
 def _run_case(wd, case):
     """One case in directory wd (which holds pristine inputs and nothing else).  A case
     that was killed by the harness's own timeout or died without reporting is run once
@@ -336,43 +375,28 @@ def _run_case_once(wd, case, timeout):
                 res = {"outcome": "exit", "etype": "rc=%d" % p.returncode, "msg": last[:200]}
         except subprocess.TimeoutExpired:
             res = {"outcome": "timeout", "etype": "timeout", "msg": ""}
-    else:
-        rfd, wfd = os.pipe()
-        pid = os.fork()
-        if pid == 0:
-            os.close(rfd)
-            _child(wd, case, wfd)
-        os.close(wfd)
-        data = b""
-        t_end = time.time() + timeout
-        timed_out = False
-        os.set_blocking(rfd, False)
-        import select
-        while True:
-            left = t_end - time.time()
-            if left <= 0:
-                timed_out = True
-                break
-            rl, _, _ = select.select([rfd], [], [], min(left, 5))
-            if rl:
-                chunk = os.read(rfd, 65536)
-                if not chunk:
-                    break
-                data += chunk
-        os.close(rfd)
-        if timed_out:
+    elif case["kind"] == "chain":
+        # main(step 1) ; main(step 2) in two fresh processes; did the input tree come back?
+        outs = []
+        for argv in case["steps"]:
+            outs.append(_fork_call(wd, {"kind": "main", "argv": argv}, timeout))
+        res = {"outcome": "return" if all(o["outcome"] == "return" for o in outs) else
+                          next(o["outcome"] for o in outs if o["outcome"] != "return"),
+               "etype": ";".join(o["etype"] for o in outs), "msg": ";".join(o["msg"] for o in outs)[:200],
+               "o1": outs[0]["outcome"], "o2": outs[1]["outcome"]}
+        restored = True
+        for rel, text in INPUT_TREE.items():
+            if not rel.startswith(case["src"] + "/"):
+                continue
+            q = os.path.join(wd, case["final"], rel[len(case["src"]) + 1:])
             try:
-                os.kill(pid, signal.SIGKILL)
+                with open(q, "rb") as fh:
+                    restored = restored and fh.read() == text.encode()
             except OSError:
-                pass
-        os.waitpid(pid, 0)
-        if timed_out:
-            res = {"outcome": "timeout", "etype": "timeout", "msg": ""}
-        else:
-            try:
-                res = json.loads(data.decode())
-            except ValueError:
-                res = {"outcome": "crash", "etype": "no-result", "msg": ""}
+                restored = False
+        res["restored"] = restored
+    else:
+        res = _fork_call(wd, case, timeout)
     # what exists now that did not exist before
     files = []
     for top in sorted(os.listdir(wd)):
@@ -527,10 +551,28 @@ def key_for(clause, g):
     extra = ["hb=%s" % ("default" if eff["hb"] == NONE else TXT[eff["hb"]]),
              "prefixes=%s" % ("default" if eff["pp"] == NONE else "default-listed" if eff["pp"] == "ppdef" else "user"),
              "addresses=%s" % ("+".join((["listed"] if eff["pa"] != NONE else []) + (["private"] if pv else [])) or "none"),
-             "salt=%s" % ("given" if eff["s"] != NONE else "none"),
+             "salt=%s" % ("none" if eff["s"] == NONE else "empty-string" if eff["s"] == "EMPTY" else "given"),
              "dump=%s" % ("yes" if eff["d"] != NONE else "no"),
              "reserved=%s" % ("yes" if eff["r"] != NONE else "no")]
     return "clause=%s decision=%s features=%s %s placements=%s" % (clause, g["decision"], ",".join(feats) or "-", " ".join(extra), places)
+
+
+def _signature(p):
+    return (p["pwd"], p["ip"], p["undo"], p["words"] != NONE, p["asn"] != NONE, p["salt"] == "EMPTY")
+
+
+def roundtrip_chains():
+    """main -a -s X -i in1 -o mid ; main -u -s X -i mid -o back, the salt given the same way both times"""
+    out = []
+    for tok in ("s1", "EMPTY"):
+        val = TXT[tok]
+        spell = [("cli", ["--salt=" + val], None), ("cli", ["--salt", val], None), ("cli", ["-s", val], None),
+                 ("cfg", ["-c", "c.cfg"], "salt=%s\n" % val),
+                 ("cli-over-cfg", ["--config=c.cfg", "-s", val], "salt=%s\n" % TXT["s2"])]
+        for place, sargs, cfg in spell:
+            out.append({"kind": "chain", "salt": tok, "place": place, "cfg": cfg, "src": "in1", "final": "back",
+                        "steps": [["-a", "-i", "in1", "-o", "mid"] + sargs, sargs + ["--undo", "--input", "mid", "--output=back"]]})
+    return out
 
 
 def sensitivity_probes(base):
@@ -550,6 +592,7 @@ def _probe_variants(probes, tag, kw):
         k.update(ch)
         probes[tag + ":" + name] = k
     var("salt", salt="yetAnotherSalt")
+    var("salt-empty-string", salt="")
     var("pwd-off", anon_pwd=False)
     var("words", sensitive_words=["Zebra", "secretword"])
     var("asn", as_numbers=["701"])
@@ -661,8 +704,14 @@ def _run(ck, pid, tier, thorough, pool):
     sig = {}
     for k in ckeys:
         p = json.loads(k)
-        sig.setdefault((p["pwd"], p["ip"], p["undo"], p["words"] != NONE, p["asn"] != NONE), k)
+        sig.setdefault(_signature(p), k)
     repeat = [lib_case(json.loads(k)) for k in sig.values()]
+    # a given salt - even the empty string - makes the run a function of it: every valid
+    # vector whose salt is "" is run a second time (another fresh process)
+    again_idx = [i for i, g in enumerate(G) if g["decision"] == "Run" and g["comparable"] and g["params"]["salt"] == "EMPTY"]
+    againcases = [main_case(G[i]) for i in again_idx]
+    # anonymize, then undo with the salt given the same way (two fresh processes each)
+    chains = roundtrip_chains()
     # a sample through real interpreter processes
     r = rng(pid, "proc-sample")
     by_dec = {}
@@ -681,14 +730,18 @@ def _run(ck, pid, tier, thorough, pool):
     probecases = [lib_case(None, kwargs=probes[n]) for n in pnames]
 
     t_run = time.time()
-    allcases = cases + libcases + repeat + proccases + probecases
+    allcases = cases + libcases + repeat + proccases + probecases + againcases + chains
     results = run_cases(pool, allcases)
     ck.notes["run_wall_s"] = round(time.time() - t_run, 1)
     o1 = len(cases)
     o2 = o1 + len(libcases)
     o3 = o2 + len(repeat)
     o4 = o3 + len(proccases)
-    R_main, R_lib, R_rep, R_proc, R_probe = results[:o1], results[o1:o2], results[o2:o3], results[o3:o4], results[o4:]
+    o5 = o4 + len(probecases)
+    o6 = o5 + len(againcases)
+    R_main, R_lib, R_rep, R_proc, R_probe = results[:o1], results[o1:o2], results[o2:o3], results[o3:o4], results[o4:o5]
+    again_of = dict(zip(again_idx, results[o5:o6]))
+    R_chain = results[o6:]
 
     # sensitivity of the input material (evidence)
     pd = {n: R_probe[i] for i, n in enumerate(pnames)}
@@ -710,7 +763,15 @@ def _run(ck, pid, tier, thorough, pool):
         if rr["digest"] != first["digest"] or rr["outcome"] != first["outcome"]:
             nonrepeat.add(s)
     if nonrepeat:
-        ck.notes["library_run_not_repeatable_for_feature_signatures"] = sorted(map(str, nonrepeat))
+        ck.notes["library_run_not_repeatable_for_feature_signatures(pwd,ip,undo,words,asn,salt-empty)"] = sorted(map(str, nonrepeat))
+
+    def compared(sg):
+        """bytes are not compared where the library run itself is not repeatable (C13's
+        business) - unless that happens only with the empty salt while the same features
+        with another salt are repeatable: then it is the handling of the given salt"""
+        if sg not in nonrepeat:
+            return True
+        return sg[-1] and (sg[:-1] + (False,)) not in nonrepeat
     lib_unusable = 0
     for k, rr in zip(ckeys, R_lib):
         if rr["outcome"] != "return":
@@ -733,9 +794,8 @@ def _run(ck, pid, tier, thorough, pool):
     MAXT = 150
     for k in ckeys:
         p = json.loads(k)
-        s = (p["pwd"], p["ip"], p["undo"], p["words"] != NONE, p["asn"] != NONE)
         lr = R_lib[ckeys.index(k)]
-        head = [{"ev": "start", "compare": s not in nonrepeat}]
+        head = [{"ev": "start", "compare": bool(compared(_signature(p)))}]
         hmeta = [(None, "")]
         if lr["outcome"] == "return":
             head.append({"ev": "ref", "params": p, "digest": lr["digest"]})
@@ -746,6 +806,9 @@ def _run(ck, pid, tier, thorough, pool):
             in_class.add(i)
             evs.append(run_event(G[i], R_main[i], "fork"))
             meta.append((i, "fork"))
+            if i in again_of:
+                evs.append(run_event(G[i], again_of[i], "again"))
+                meta.append((i, "again"))
             if i in proc_of:
                 evs.append(run_event(G[i], proc_of[i], "proc"))
                 meta.append((i, "proc"))
@@ -765,6 +828,14 @@ def _run(ck, pid, tier, thorough, pool):
             meta.append((i, "proc"))
         traces.append(evs)
         tmeta.append(meta)
+
+    for n, (c, rr) in enumerate(zip(chains, R_chain)):
+        traces.append([{"ev": "start", "compare": True},
+                       {"ev": "roundtrip", "salt": c["salt"], "place": c["place"], "o1": rr.get("o1", rr["outcome"]),
+                        "o2": rr.get("o2", rr["outcome"]), "restored": bool(rr.get("restored", False))}])
+        tmeta.append([(None, ""), (("rt", n), "chain")])
+    ck.notes["anonymize_then_undo_roundtrips"] = [{"salt": c["salt"], "place": c["place"], "steps": c["steps"], "config_file": c["cfg"],
+                                                   "restored": rr.get("restored")} for c, rr in zip(chains, R_chain)]
 
     for t in threads:
         t.join()
@@ -798,14 +869,22 @@ def _run(ck, pid, tier, thorough, pool):
             if k == len(second[ti]) - 1:
                 failures.append((smeta[ti][0], smeta[ti][1], clause))
 
+    for i, via, clause in [f for f in failures if isinstance(f[0], tuple)]:
+        c, rr = chains[i[1]], R_chain[i[1]]
+        ck.violation("clause=%s salt=%s place=%s" % (clause, "empty" if c["salt"] == "EMPTY" else "nonempty", c["place"]),
+                     "main(%r) then main(%r)%s in two fresh processes: outcomes %s / %s (%s), input restored: %s" %
+                     (c["steps"][0], c["steps"][1], (" with config file %r" % c["cfg"]) if c["cfg"] else "",
+                      rr.get("o1"), rr.get("o2"), rr.get("msg"), rr.get("restored")),
+                     {"roundtrip": c, "observed": rr, "clause": clause})
+    failures = [f for f in failures if not isinstance(f[0], tuple)]
     for i, via, clause in failures:
         if clause in ("HarnessBadVector", "HarnessGrouping", "UnknownEvent"):
             raise MachineryError("trace module reports %s for vector %s" % (clause, order[i] if i is not None else "?"))
     failures.sort(key=lambda f: (sum(G[f[0]]["cli"][o] != NONE or G[f[0]]["cfg"][o] != NONE for o in OPTS), order[f[0]], f[1]))
     for i, via, clause in failures:
         g = G[i]
-        rr = R_main[i] if via == "fork" else proc_of[i]
-        case = cases[i] if via == "fork" else proccases[proc_idx.index(i)]
+        rr = R_main[i] if via == "fork" else again_of[i] if via == "again" else proc_of[i]
+        case = proccases[proc_idx.index(i)] if via == "proc" else cases[i]
         argv = case["argv"]
         what = ("main(%r)%s [%s]: spec decision %s%s; observed outcome=%s %s %s created=%s input_intact=%s" %
                 (argv, (" with config file %r" % case["cfg"]) if case["cfg"] is not None else "", via, g["decision"],
@@ -848,7 +927,9 @@ def _run(ck, pid, tier, thorough, pool):
             kk = "%s: %s" % (rr["etype"], rr["msg"][:60])
             d[kk] = d.get(kk, 0) + 1
     ck.notes["observed_rejections_by_reason"] = how
-    ck.evaluations += len(libcases) + len(repeat) + len(proccases)
+    ck.evaluations += len(libcases) + len(repeat) + len(proccases) + len(againcases) + len(chains)
+    ck.notes["empty_salt"] = {"valid_vectors_with_salt_empty_string": len(again_idx), "each_run_twice": True,
+                              "placements": sorted({placement(G[i], "s") for i in again_idx})}
     ck.notes["decisions"] = dec
     ck.notes["reject_reasons_exercised"] = reasons
     ck.notes["dont_care_overridden_bad_config_hostbits"] = sum(1 for g in G if g["may"])
